@@ -60,7 +60,7 @@ Definition caught (c : exc) (l : list exc) : bool := existsb (subclass c) l.
 Arguments subclass : simpl never.
 Arguments caught : simpl never.
 
-(** ** Parameters: opaque user objects, and the objects the constructors derive. *)
+(** ** Argument objects: opaque user objects, and the objects the constructors derive. *)
 Inductive refunc := Fullmatch | Search | Match.
 Inductive cmpop := OLt | OLe | OGe | OGt.
 
